@@ -195,7 +195,7 @@ def gen_case(rng, ctx, kinds: List[str]) -> Dict:
     late = rng.choice([0, 0, 0, 1, 2, 7]) if kind in X.HAS_INPUT else 0
     inputs = ("src",) if late else ("close", "close", "high", "src")
     if not late and kind in ("SMA", "EMA", "RMA", "WMA", "STDEV", "STDEVTHRES"):
-        inputs = inputs + ("volume", "zsrc")       # series that contain exact zeros
+        inputs = inputs + ("volume", "zsrc", "zsrc")       # series that contain exact zeros
     spec = X.gen_spec(rng, kind, ctx.thorough, inputs=inputs)
     spec["round_value"] = rng.choice([4, 4, 8])
     # helper series are stored with 4 decimals whatever the scale of the prices: keep the
@@ -211,8 +211,19 @@ def gen_case(rng, ctx, kinds: List[str]) -> Dict:
     elif spec["kw"].get("input_value") == "volume":
         for r in rows:
             r["volume"] = rng.choice([0, 0, 120, 95, 130, 7])
-    for r in rows:              # an input series around zero with exact zeros in it
-        r["inds"]["zsrc"] = rng.choice([0.0, 0.0, 0, 1.5, -2.25, 3.0, 0.5])
+    # an input series around zero with exact zeros in it: scattered, or in runs long enough
+    # for an average over them to be exactly 0.0 before the series moves again
+    runs = rng.random() < 0.5
+    left, zero = 0, False
+    for r in rows:
+        if runs:
+            if left == 0:
+                zero = not zero
+                left = rng.randint(2, 16) if zero else rng.randint(1, 6)
+            left -= 1
+            r["inds"]["zsrc"] = rng.choice([0.0, 0]) if zero else rng.choice([1.5, -2.25, 3.0, 0.5])
+        else:
+            r["inds"]["zsrc"] = rng.choice([0.0, 0.0, 0, 1.5, -2.25, 3.0, 0.5])
     return {"spec": spec, "cfg": {}, "rows": rows, "late": late, "meta": {"kind": kind, "n": n, "late": late}}
 
 
